@@ -22,6 +22,8 @@ RULE = (
     'columns that read like numbers / literals; later frames (two designs spelling one call on one frame '
     'object, the frame edited in place, assign() / copy() derivatives, a row subset); dotted callees rebound '
     'between designs. '
+    "Later: names bound to None / 0 / '', 1500-row frames, caller arrays inside operators, a local binding "
+    'shadowing a module-level one. '
 )
 ASSUMPTIONS = [
     "oracle is Python's own eval over the same names; scalar-only expressions are excluded (the library rejects them)",
